@@ -21,6 +21,7 @@ inductive:
 
 Nothing of the library is executed: the interpreter walks the analyser's CFG with abstract values.
 """
+import time
 from . import ir
 from .front import AnalysisBroken
 
@@ -59,6 +60,12 @@ class LoopBack(Exception):
     pass
 
 
+class Raised(Exception):
+    """the interpreted code throws a Cello exception: the path ends"""
+    def __init__(self, why):
+        self.why = why
+
+
 class Returned(Exception):
     def __init__(self, v):
         self.v = v
@@ -81,6 +88,8 @@ class State:
         self.h_lo = 0
         self.h_eq = None
         self.trace = []
+        self.freed = set()
+        self.writes = 0
 
     # -- oracle ---------------------------------------------------------------
     def choose(self, options, what):
@@ -97,57 +106,69 @@ class State:
         self.log.append((what, options[c]))
         return options[c]
 
-    # -- heights ----------------------------------------------------------------
-    def can_be_zero(self, k):
-        # h + k == 0 ?
+    # -- heights: terms ('h', k) = h + k with one symbolic h, or ('a', k) = the number k ------------------
+    def can_be_zero(self, H):
+        v, k = H
+        if v == 'a':
+            return k == 0
         if self.h_eq is not None:
             return self.h_eq + k == 0
         return -k >= self.h_lo
 
-    def can_be_positive(self, k):
+    def can_be_positive(self, H):
+        v, k = H
+        if v == 'a':
+            return k >= 1
         if self.h_eq is not None:
             return self.h_eq + k >= 1
         return True
 
-    def assume_zero(self, k):
-        self.h_eq = -k
+    def assume_zero(self, H):
+        if H[0] == 'h':
+            self.h_eq = -H[1]
 
-    def assume_positive(self, k):
-        if self.h_eq is None:
-            self.h_lo = max(self.h_lo, 1 - k)
+    def assume_positive(self, H):
+        if H[0] == 'h' and self.h_eq is None:
+            self.h_lo = max(self.h_lo, 1 - H[1])
+
+    def norm_h(self, H):
+        if H[0] == 'h' and self.h_eq is not None:
+            return ('a', self.h_eq + H[1])
+        return H
 
     # -- nodes --------------------------------------------------------------------
-    def new_node(self, col, left, right, parent, opaque=None, label=''):
+    def new_node(self, col, left, right, parent, opaque=None, label='', reg=0):
         i = self.next_id
         self.next_id += 1
-        self.nodes[i] = {'L': left, 'R': right, 'P': parent, 'C': col, 'opaque': opaque, 'label': label}
+        self.nodes[i] = {'L': left, 'R': right, 'P': parent, 'C': col, 'opaque': opaque, 'label': label, 'reg': reg}
         return i
 
     def focus_down(self, owner, side):
         v = self.nodes[owner][side]
         if not (isinstance(v, tuple) and v[0] == 'sig'):
             return v
-        _, cols, k = v
+        _, cols, H = v
         opts = []
-        if B in cols and self.can_be_zero(k):
+        if B in cols and self.can_be_zero(H):
             opts.append('empty')
-        if B in cols and self.can_be_positive(k):
+        if B in cols and self.can_be_positive(H):
             opts.append('black')
         if R in cols:
             opts.append('red')
-        c = self.choose(opts, 'subtree %s of %s (root in {%s}, black height h%+d)' % (
-            side, self.name(owner), ','.join('RB'[x] for x in sorted(cols, reverse=True)), k))
+        c = self.choose(opts, 'subtree %s of %s (root in {%s}, black height %s)' % (
+            side, self.name(owner), ','.join('RB'[x] for x in sorted(cols, reverse=True)), fmt_h(H)))
         if c == 'empty':
-            self.assume_zero(k)
+            self.assume_zero(H)
             nv = 0
         elif c == 'black':
-            self.assume_positive(k)
-            i = self.new_node(B, ('sig', frozenset((B, R)), k - 1), ('sig', frozenset((B, R)), k - 1), N_(owner),
-                              label='%s.%s' % (self.name(owner), side))
+            self.assume_positive(H)
+            H1 = (H[0], H[1] - 1)
+            i = self.new_node(B, ('sig', frozenset((B, R)), H1), ('sig', frozenset((B, R)), H1), N_(owner),
+                              label='%s.%s' % (self.name(owner), side), reg=self.nodes[owner]['reg'])
             nv = N_(i)
         else:
-            i = self.new_node(R, ('sig', frozenset((B,)), k), ('sig', frozenset((B,)), k), N_(owner),
-                              label='%s.%s' % (self.name(owner), side))
+            i = self.new_node(R, ('sig', frozenset((B,)), H), ('sig', frozenset((B,)), H), N_(owner),
+                              label='%s.%s' % (self.name(owner), side), reg=self.nodes[owner]['reg'])
             nv = N_(i)
         self.nodes[owner][side] = nv
         return nv
@@ -159,23 +180,27 @@ class State:
         _, own, mode, c0, exp = v
         # exp: black height the context expects of the subtree hanging here
         opts = []
-        if mode != 'generic' or c0 == B:
+        if mode != 'inner' and (mode != 'generic' or c0 == B):
             opts.append(Opt('it is the root', ('root',)))
-        for gc in ((B,) if (mode == 'generic' and c0 == R) else (B, R)):
+        for gc in ((B,) if (mode == 'black-parent' or (mode in ('generic', 'inner') and c0 == R)) else (B, R)):
             for side in ('L', 'R'):
                 opts.append(Opt('%s parent, %s child' % ('red' if gc == R else 'black', 'left' if side == 'L' else 'right'), ('parent', gc, side)))
         c = self.choose(opts, 'context above %s' % self.name(owner)).data
         if c[0] == 'root':
             self.nodes[owner]['P'] = 0
+            if self.root not in (('unknown',), ('maybe', owner), N_(owner)):
+                raise Infeasible()
             self.root = N_(owner)
             return 0
+        if self.root == ('maybe', owner):
+            self.root = ('unknown',)
         _, gc, side = c
         other = 'R' if side == 'L' else 'L'
         sib = ('sig', frozenset((B, R)) if gc == B else frozenset((B,)), exp)
-        g = self.new_node(gc, None, None, None, label='parent(%s)' % self.name(owner))
+        g = self.new_node(gc, None, None, None, label='parent(%s)' % self.name(owner), reg=self.nodes[owner]['reg'])
         self.nodes[g][side] = N_(owner)
         self.nodes[g][other] = sib
-        self.nodes[g]['P'] = ('up', g, 'generic', gc, exp + (1 if gc == B else 0))
+        self.nodes[g]['P'] = ('up', g, 'generic', gc, (exp[0], exp[1] + (1 if gc == B else 0)))
         self.nodes[owner]['P'] = N_(g)
         return N_(g)
 
@@ -207,6 +232,7 @@ class State:
         if not (isinstance(v, tuple) and v[0] == 'n'):
             raise Unsupported('field write through %r' % (v,))
         i = v[1]
+        self.writes += 1
         if k in (0, 1):
             if x == ('opq',):
                 raise Violation('relinks a child of the node whose subtree is one black short (the caller is about to unlink that node)', line)
@@ -214,6 +240,10 @@ class State:
                 raise Violation('stores a parent|colour word into a child link', line)
             if not (x == 0 or (isinstance(x, tuple) and x[0] == 'n')):
                 raise Unsupported('stores %r into a child link' % (x,))
+            old = self.nodes[i]['L' if k == 0 else 'R']
+            if isinstance(old, tuple) and old[0] == 'sig':
+                raise Violation('overwrites the %s link of %s without ever having looked at it: the subtree behind it may be non-empty and is lost'
+                                % ('left' if k == 0 else 'right', self.name(i)), line)
             self.nodes[i]['L' if k == 0 else 'R'] = x
             return
         if k == 2:
@@ -243,6 +273,7 @@ class Interp:
         self.loop_head = None
         self.on_head = None
         self.lines = []
+        self.hooks = {}
 
     # -- expressions -----------------------------------------------------------------
     def truth(self, v):
@@ -250,7 +281,7 @@ class Interp:
             return v
         if isinstance(v, int):
             return v != 0
-        if isinstance(v, tuple) and v[0] == 'n':
+        if isinstance(v, tuple) and v[0] in ('n', 'payload'):
             return True
         raise Unsupported('truth value of %r' % (v,))
 
@@ -279,6 +310,8 @@ class Interp:
             b = self.ev(e[1], fr, line)
             if b == ('m',) and e[2] == 'root':
                 return ('lv_root',)
+            if b == ('m',):
+                return ('lv_mfield', e[2])
             raise Unsupported('store to field %s' % e[2])
         raise Unsupported('assignment target %s' % ir.fmt(e))
 
@@ -293,6 +326,9 @@ class Interp:
             if not (v == 0 or (isinstance(v, tuple) and v[0] == 'n')):
                 raise Unsupported('stores %r into root' % (v,))
             self.st.root = v
+            self.st.writes += 1
+        elif lv[0] == 'lv_mfield':
+            pass        # counters and sizes of the map record: not part of the shape
 
     def ev(self, e, fr, line):
         k = e[0]
@@ -310,6 +346,8 @@ class Interp:
             return e[1]
         if k == 'zero':
             return 0
+        if k in ('enum', 'global', 'str', 'func'):
+            return ('opqv',)
         if k == 'param':
             if e[2] not in fr['params']:
                 raise Unsupported('parameter %s' % e[1])
@@ -324,13 +362,17 @@ class Interp:
             s = ir.fmt(e)
             if 'void *' in s or 'var' in s:
                 return ('W',)
-            raise Unsupported('sizeof %s' % s)
+            return ('sz',)
         if k == 'arrow':
             b = self.ev(e[1], fr, line)
             if b == ('m',) and e[2] == 'root':
                 if self.st.root == ('unknown',):
                     raise Unsupported('reads m->root of an unmaterialised context')
+                if isinstance(self.st.root, tuple) and self.st.root[0] == 'maybe':
+                    return N_(self.st.root[1])
                 return self.st.root
+            if b == ('m',):
+                return ('opqv',)
             raise Unsupported('reads field %s' % e[2])
         if k == 'un':
             op = e[1]
@@ -339,6 +381,17 @@ class Interp:
                 if isinstance(a, tuple) and a[0] == 'addr':
                     return self.st.read_word(a[1], a[2], line)
                 raise Unsupported('dereference of %r' % (a,))
+            if op in ('pre++', 'pre--', 'post++', 'post--'):
+                lv = self.lvalue(e[2], fr, line)
+                if lv[0] == 'lv_mfield':
+                    return ('opqv',)
+                if lv[0] in ('lv_local', 'lv_param'):
+                    tab = fr['locals'] if lv[0] == 'lv_local' else fr['params']
+                    old = tab.get(lv[1])
+                    if isinstance(old, int):
+                        tab[lv[1]] = old + (1 if '++' in op else -1)
+                        return tab[lv[1]] if op.startswith('pre') else old
+                raise Unsupported('increment of %s' % ir.fmt(e[2]))
             v = self.ev(e[2], fr, line)
             if op == '!':
                 return int(not self.truth(v))
@@ -374,6 +427,16 @@ class Interp:
                         return ('addr', 0, y[1])
                     if isinstance(x, tuple) and x[0] == 'n' and y == ('W',):
                         return ('addr', x, 1)
+                    if isinstance(x, tuple) and x[0] == 'addr' and isinstance(y, tuple) and y[0] == 'woff':
+                        return ('addr', x[1], x[2] + y[1])
+                    if isinstance(x, tuple) and x[0] == 'addr' and x[2] >= 3 and (y in (('sz',), ('opqv',)) or isinstance(y, int)):
+                        return ('payload', x[1])
+                    if isinstance(x, tuple) and x[0] == 'payload':
+                        return x
+                    if x in (('sz',), ('opqv',), ('W',)) and (y in (('sz',), ('opqv',), ('W',)) or isinstance(y, int) or (isinstance(y, tuple) and y[0] == 'woff')):
+                        return ('sz',)
+                    if isinstance(x, tuple) and x[0] == 'woff' and isinstance(y, tuple) and y[0] == 'woff':
+                        return ('woff', x[1] + y[1])
                 if isinstance(a, int) and isinstance(b, int):
                     return a + b
             if op == '&':
@@ -416,6 +479,8 @@ class Interp:
             nm = ir.callee_name(e)
             if nm is None:
                 raise Unsupported('indirect call')
+            if nm in self.hooks:
+                return self.hooks[nm](self, e, fr, line)
             fn = self.P.fn(nm, required=False)
             if fn is None or fn.get('body') is None:
                 raise Unsupported('call of %s (no body in the analysed unit)' % nm)
@@ -441,7 +506,7 @@ class Interp:
             if k == 'exit':
                 return None
             if k == 'term':
-                raise Unsupported('non-returning call in %s' % fn['name'])
+                raise Raised(node['why'])
             if k == 'switch':
                 raise Unsupported('switch in %s' % fn['name'])
             if k == 'join' and top and node.get('loop') and not fr.get('inner_loop_seen', {}).get(node['id']):
@@ -482,9 +547,10 @@ def strip(e):
 # ---------------------------------------------------------------------------------------------
 # validity of the abstract heap
 
-def validate(st, start, irregular=None, deficient=None, root_red_ok=None, at_return=False):
+def validate(st, start, irregular=None, deficient=None, root_red_ok=None, at_return=False, gone=()):
     """start: id of some materialised node in the tree.  irregular: node whose edge to its parent may be red-red.
-    deficient: node whose subtree is counted one black higher than it is.  root_red_ok: id allowed to be a red root."""
+    deficient: node whose subtree is counted one black higher than it is.  root_red_ok: id allowed to be a red root.
+    gone: nodes that must no longer be part of the tree (freed)."""
     # climb
     top = start
     seen = set()
@@ -499,23 +565,19 @@ def validate(st, start, irregular=None, deficient=None, root_red_ok=None, at_ret
         break
     visited = set()
 
-    def height(v):
-        if v[0] == 'abs':
-            if st.h_eq is not None:
-                return ('rel', -st.h_eq)
-        return v
-
     def sub(v, parent):
         if v == 0:
-            return height(('abs', 0)), B
+            return ('a', 0), B
         if isinstance(v, tuple) and v[0] == 'sig':
-            _, cols, k = v
+            _, cols, H = v
             if parent is not None and st.nodes[parent]['C'] == R and R in cols:
                 raise Violation('an unexamined subtree whose root may be red hangs under the red node %s' % st.name(parent))
-            return ('rel', k), None
+            return st.norm_h(H), None
         if not (isinstance(v, tuple) and v[0] == 'n'):
             raise Violation('a child link holds %r' % (v,))
         i = v[1]
+        if i in gone:
+            raise Violation('the released node %s is still linked into the tree' % st.name(i))
         if i in visited:
             raise Violation('node %s is reachable through two child links' % st.name(i))
         visited.add(i)
@@ -526,23 +588,26 @@ def validate(st, start, irregular=None, deficient=None, root_red_ok=None, at_ret
             if st.nodes[parent]['C'] == R and nd['C'] == R and i != irregular:
                 raise Violation('red node %s has the red child %s' % (st.name(parent), st.name(i)))
         if nd['opaque'] is not None:
-            bh = ('rel', nd['opaque'])
+            bh = st.norm_h(nd['opaque'])
+            stack = [nd['L'], nd['R']]       # what hangs below an opaque node is not judged here
+            while stack:
+                w = stack.pop()
+                if isinstance(w, tuple) and w[0] == 'n' and w[1] not in visited and w[1] in st.nodes:
+                    visited.add(w[1])
+                    stack += [st.nodes[w[1]]['L'], st.nodes[w[1]]['R']]
         else:
             l, _ = sub(nd['L'], i)
             r, _ = sub(nd['R'], i)
             if l != r:
                 raise Violation('black heights differ below %s: left %s, right %s' % (st.name(i), fmt_h(l), fmt_h(r)))
-            if l[0] == 'abs':
-                bh = ('abs', l[1] + (1 if nd['C'] == B else 0))
-            else:
-                bh = ('rel', l[1] + (1 if nd['C'] == B else 0))
+            bh = (l[0], l[1] + (1 if nd['C'] == B else 0))
         if i == deficient:
             bh = (bh[0], bh[1] + 1)
         return bh, nd['C']
 
     bh, col = sub(N_(top), None)
     for i in st.nodes:
-        if i not in visited:
+        if i not in visited and i not in gone and st.nodes[i]['reg'] == st.nodes[start]['reg']:
             raise Violation('node %s is no longer reachable from the top of the examined region (dropped from the tree)' % st.name(i))
     p = st.nodes[top]['P']
     if p == 0:
@@ -552,21 +617,23 @@ def validate(st, start, irregular=None, deficient=None, root_red_ok=None, at_ret
             raise Violation('the root %s is red' % st.name(top))
     elif isinstance(p, tuple) and p[0] == 'up':
         _, own, mode, c0, exp = p
-        if at_return and mode != 'generic':
+        if at_return and mode in ('I', 'J'):
             raise Violation('returns without having looked at the parent of %s (it may be red, or %s may be the root)' % (st.name(top), st.name(top)))
         if own != top:
             raise Violation('the context above still points to %s, not to %s' % (st.name(own), st.name(top)))
-        if height(bh) != ('rel', exp):
-            raise Violation('the subtree at %s has black height %s, the tree above it needs %s' % (st.name(top), fmt_h(bh), fmt_h(('rel', exp))))
+        if st.norm_h(bh) != st.norm_h(exp):
+            raise Violation('the subtree at %s has black height %s, the tree above it needs %s' % (st.name(top), fmt_h(bh), fmt_h(exp)))
         if col == R and c0 == B and top != irregular:
             raise Violation('%s was black and is red now while its unexamined parent may be red' % st.name(top))
+        if isinstance(st.root, tuple) and st.root[0] == 'n' and st.root != N_(top) and st.nodes[st.root[1]]['reg'] == st.nodes[top]['reg']:
+            raise Violation('the root pointer was set to %s, which is not the top of the tree' % st.name(st.root[1]))
     else:
         raise Violation('parent word of %s holds %r' % (st.name(top), p))
     return top
 
 
 def fmt_h(b):
-    if b[0] == 'abs':
+    if b[0] == 'a':
         return str(b[1])
     return 'h%+d' % b[1] if b[1] else 'h'
 
@@ -590,23 +657,24 @@ def is_ancestor(st, a, d):
 def rem_fix_state(st, cN):
     """I(N): a valid tree in which the subtree at N (black height h, root colour cN, never inspected) is one black short;
     the edge N-parent may be red-red (Tree_Rem gives N the colour of the child that will take its place)"""
-    n = st.new_node(cN, ('opq',), ('opq',), None, opaque=0, label='N')
-    st.nodes[n]['P'] = ('up', n, 'I', cN, 1)
+    n = st.new_node(cN, ('opq',), ('opq',), None, opaque=('h', 0), label='N')
+    st.nodes[n]['P'] = ('up', n, 'I', cN, ('h', 1))
     return n
 
 
 def set_fix_state(st):
     """J(N): N is red with two black-rooted subtrees of black height h; the tree is valid except that N's parent may be red
     and that N may be the (red) root"""
-    n = st.new_node(R, ('sig', frozenset((B,)), 0), ('sig', frozenset((B,)), 0), None, label='N')
-    st.nodes[n]['P'] = ('up', n, 'J', R, 0)
+    n = st.new_node(R, ('sig', frozenset((B,)), ('h', 0)), ('sig', frozenset((B,)), ('h', 0)), None, label='N')
+    st.nodes[n]['P'] = ('up', n, 'J', R, ('h', 0))
     return n
 
 
 MAX_UNROLL = 3
+MAX_FOCUS = 14      # a path that needed more case splits than this without re-establishing the invariant is reported
 
 
-def explore(P, fname, kind, max_runs=200000):
+def explore(P, fname, kind, max_runs=12000):
     """returns dict(runs=, returns=, loopbacks=, violations=[...], unsupported=[...])
 
     A path that comes back to the loop head is closed when the invariant holds there for a node strictly nearer the
@@ -617,13 +685,19 @@ def explore(P, fname, kind, max_runs=200000):
     res = {'runs': 0, 'returns': 0, 'loopbacks': 0, 'violations': [], 'unsupported': [], 'infeasible': 0,
            'max_choices': 0, 'max_nodes': 0, 'unrolled': 0}
     variants = [(R,), (B,)] if kind == 'rem' else [()]
+    t0 = time.time()
+    pending = []
     for var in variants:
         stack = [[]]
         while stack:
             choices = stack.pop()
             res['runs'] += 1
-            if res['runs'] > max_runs:
-                res['unsupported'].append('more than %d abstract runs' % max_runs)
+            if res['runs'] > max_runs or time.time() - t0 > 60:
+                if pending:
+                    # paths that came back to the loop head without the invariant and whose continuation does not fit the budget
+                    res['violations'].append(pending[0])
+                else:
+                    res['unsupported'].append('more than %d abstract runs or 60 s' % max_runs)
                 return res
             st = State(choices)
             n0 = rem_fix_state(st, var[0]) if kind == 'rem' else set_fix_state(st)
@@ -640,6 +714,9 @@ def explore(P, fname, kind, max_runs=200000):
                     n1 = nv[1]
                     if kind == 'rem':
                         validate(st, n1, irregular=n1, deficient=n1, root_red_ok=None)
+                        if st.nodes[n0]['C'] != var[0] or st.nodes[n0]['P'] != N_(n1) or st.nodes[n1]['C'] != B:
+                            raise Violation('continues with %s, which is not the black parent of an unchanged N (the caller relies on N ending '
+                                            'under a black parent)' % st.name(n1))
                     else:
                         if st.nodes[n1]['C'] != R:
                             raise Violation('continues with the black node %s (the loop invariant is about a red node)' % st.name(n1))
@@ -650,7 +727,12 @@ def explore(P, fname, kind, max_runs=200000):
                 except Violation as v:
                     if not first_fail:
                         first_fail.append((v, list(interp.lines)))
-                    if len(first_fail) and interp.head_visits - 1 > MAX_UNROLL:
+                        if len(pending) < 3:
+                            pending.append({'pre': 'N %s' % (('red' if var[0] == R else 'black') if kind == 'rem' else 'red'),
+                                            'focus': ['%s: %s' % (w, c) for (w, c) in st.log], 'lines': compress(interp.lines),
+                                            'what': v.what + ' (and what the loop does from there could not be followed to an end within the exploration budget)',
+                                            'line': v.line, 'exit': 'loop', 'h': ''})
+                    if interp.head_visits - 1 > MAX_UNROLL or len(st.log) > MAX_FOCUS:
                         outcome[0] = 'loop'
                         raise first_fail[0][0]
                     return False
@@ -670,6 +752,10 @@ def explore(P, fname, kind, max_runs=200000):
                         nd = st.nodes[n0]
                         if nd['C'] != var[0] or nd['L'] != ('opq',) or nd['R'] != ('opq',):
                             raise Violation('the node the caller is about to unlink was recoloured or relinked by the fix-up')
+                        pp = nd['P']
+                        if isinstance(pp, tuple) and pp[0] == 'n' and st.nodes[pp[1]]['C'] != B:
+                            raise Violation('the parent of the node to unlink is red when the fix-up returns: whatever replaces the node '
+                                            '(possibly a red child) would sit under a red parent')
                     else:
                         validate(st, n0, at_return=True)
                 else:
@@ -705,3 +791,319 @@ def compress(lines):
         if not out or out[-1] != l:
             out.append(l)
     return out
+
+
+# ---------------------------------------------------------------------------------------------
+# whole operations: Tree_Set, Tree_Rem (and the helpers whose loops are summarised by a checked contract)
+
+def subtree_height(st, v):
+    """black height term of the (valid) subtree behind link value v; raises Violation if it is not balanced"""
+    if v == 0:
+        return ('a', 0)
+    if isinstance(v, tuple) and v[0] == 'sig':
+        return st.norm_h(v[2])
+    nd = st.nodes[v[1]]
+    if nd['opaque'] is not None:
+        return st.norm_h(nd['opaque'])
+    l, r = subtree_height(st, nd['L']), subtree_height(st, nd['R'])
+    if l != r:
+        raise Violation('black heights differ below %s: left %s, right %s' % (st.name(v[1]), fmt_h(l), fmt_h(r)))
+    return (l[0], l[1] + (1 if nd['C'] == B else 0))
+
+
+def colour_of(st, v):
+    if v == 0:
+        return B
+    if isinstance(v, tuple) and v[0] == 'n':
+        return st.nodes[v[1]]['C']
+    raise Unsupported('colour of an unexamined subtree')
+
+
+def generic_node(st, col, label='X', reg=0, mode='generic', right_nil=False):
+    """an arbitrary node of a valid tree: colour col, unexamined subtrees of equal black height, unexamined context"""
+    if right_nil:
+        kids = ('sig', frozenset((B, R)) if col == B else frozenset((B,)), ('a', 0))
+        n = st.new_node(col, kids, 0, None, label=label, reg=reg)
+        st.nodes[n]['P'] = ('up', n, mode, col, ('a', 1 if col == B else 0))
+        return n
+    cols = frozenset((B, R)) if col == B else frozenset((B,))
+    n = st.new_node(col, ('sig', cols, ('h', 0)), ('sig', cols, ('h', 0)), None, label=label, reg=reg)
+    st.nodes[n]['P'] = ('up', n, mode, col, ('h', 1 if col == B else 0))
+    return n
+
+
+def validate_all(st, gone=(), **kw):
+    """every region of the heap is a valid tree"""
+    regs = {}
+    for i, nd in st.nodes.items():
+        if i not in gone:
+            regs.setdefault(nd['reg'], i)
+    for reg, i in sorted(regs.items()):
+        validate(st, i, gone=gone, **kw)
+    return regs
+
+
+class OpHooks:
+    """meaning given to the calls an operation makes outside the interpreted fragment (frozen; each line is a reason)"""
+
+    def __init__(self, it, st):
+        self.it, self.st = it, st
+        self.fixed = None          # (function, writes at that time)
+        h = it.hooks
+        h['cast'] = self.arg0                     # cast(x, T) hands back x or raises TypeError: no effect on the shape
+        h['cmp'] = self.cmp                       # three-way result of user code: any of <0, 0, >0
+        h['assign'] = self.arg0                   # writes the payload of a node (offsets >= 3 words: C03.layout)
+        h['destruct'] = self.arg0                 # finalises the payload of a node
+        h['memcpy'] = self.memcpy                 # payload copy; a copy over the link words is a violation
+        h['calloc'] = self.calloc                 # fresh zeroed node
+        h['header_init'] = self.arg0              # stamps the payload header
+        h['free'] = self.free
+        h['Tree_Set_Fix'] = self.set_fix          # contract established by explore(..., 'set')
+        h['Tree_Rem_Fix'] = self.rem_fix          # contract established by explore(..., 'rem')
+        h['Tree_Maximum'] = self.maximum          # contract established by check_maximum
+
+    def arg0(self, it, e, fr, line):
+        vals = [it.ev(a, fr, line) for a in e[2]]
+        return vals[0] if vals else 0
+
+    def cmp(self, it, e, fr, line):
+        for a in e[2]:
+            it.ev(a, fr, line)
+        return self.st.choose([Opt('stored key sorts after the sought key (cmp < 0 branch)', -1), Opt('keys equal', 0),
+                               Opt('stored key sorts before (cmp > 0 branch)', 1)], 'cmp(stored key, sought key)').data
+
+    def memcpy(self, it, e, fr, line):
+        vals = [it.ev(a, fr, line) for a in e[2]]
+        d = vals[0]
+        if isinstance(d, tuple) and d[0] == 'addr' and d[2] < 3:
+            raise Violation('memcpy over the link words of a node', line)
+        return d
+
+    def calloc(self, it, e, fr, line):
+        n = self.st.new_node(B, 0, 0, 0, label='new', reg=0)
+        self.new = n
+        return N_(n)
+
+    def free(self, it, e, fr, line):
+        v = it.ev(e[2][0], fr, line)
+        if not (isinstance(v, tuple) and v[0] == 'n'):
+            raise Violation('free of %r' % (v,), line)
+        self.st.freed.add(v[1])
+        return 0
+
+    def set_fix(self, it, e, fr, line):
+        st = self.st
+        v = it.ev(e[2][1], fr, line)
+        if not (isinstance(v, tuple) and v[0] == 'n'):
+            raise Violation('Tree_Set_Fix called with %r' % (v,), line)
+        n = v[1]
+        if self.fixed:
+            raise Violation('the insertion rebalances twice', line)
+        if st.nodes[n]['C'] != R:
+            raise Violation('Tree_Set_Fix is entered with the black node %s: a new black node makes one path longer, and the fix-up loop is only '
+                            'correct for a red node' % st.name(n), line)
+        for sd in ('L', 'R'):
+            if R in ({colour_of(st, st.nodes[n][sd])} if not (isinstance(st.nodes[n][sd], tuple) and st.nodes[n][sd][0] == 'sig') else st.nodes[n][sd][1]):
+                raise Violation('Tree_Set_Fix is entered with a node that has a red child', line)
+        validate(st, n, irregular=n, root_red_ok=n)
+        for reg_start in validate_all.__defaults__ or ():
+            pass
+        self.fixed = ('Tree_Set_Fix', st.writes)
+        return None
+
+    def rem_fix(self, it, e, fr, line):
+        st = self.st
+        v = it.ev(e[2][1], fr, line)
+        if not (isinstance(v, tuple) and v[0] == 'n'):
+            raise Violation('Tree_Rem_Fix called with %r' % (v,), line)
+        x = v[1]
+        nd = st.nodes[x]
+        if self.fixed:
+            raise Violation('the removal rebalances twice', line)
+        l, r = st.focus_down(x, 'L'), st.focus_down(x, 'R')
+        if l != 0 and r != 0:
+            raise Violation('Tree_Rem_Fix is entered for a node with two children', line)
+        chld = l if l != 0 else r
+        eff = subtree_height(st, chld)
+        # the other regions are complete valid trees; this one is valid when x counts as `eff` + 1
+        for i, o in list(st.nodes.items()):
+            if o['reg'] != nd['reg']:
+                validate(st, i)
+        nd['opaque'] = eff
+        validate(st, x, irregular=x, deficient=x, root_red_ok=x)
+        # contract: a valid tree in which x is unchanged and counts as `eff`
+        keep = {x}
+        stack = [chld]
+        while stack:
+            w = stack.pop()
+            if isinstance(w, tuple) and w[0] == 'n':
+                keep.add(w[1])
+                stack += [st.nodes[w[1]]['L'], st.nodes[w[1]]['R']]
+        for i in list(st.nodes):
+            if i not in keep:
+                del st.nodes[i]
+        nd['P'] = ('up', x, 'black-parent', nd['C'], eff)
+        st.root = ('maybe', x)
+        self.fixed = ('Tree_Rem_Fix', None)
+        return None
+
+    def maximum(self, it, e, fr, line):
+        st = self.st
+        v = it.ev(e[2][1], fr, line)
+        if not (isinstance(v, tuple) and v[0] == 'n'):
+            raise Violation('Tree_Maximum called with %r' % (v,), line)
+        pv = st.nodes[v[1]]['P']
+        if not (isinstance(pv, tuple) and pv[0] == 'n' and st.nodes[pv[1]]['L'] == v):
+            raise Violation('the maximum is taken of a subtree that is not the left subtree of the node being removed: its keys do not '
+                            'precede that node\'s key, so copying it there breaks the order', line)
+        col = st.choose([Opt('black', B), Opt('red', R)], 'colour of the in-order predecessor').data
+        n = generic_node(st, col, label='pred', reg=1, mode='inner', right_nil=True)
+        return N_(n)
+
+
+def explore_op(P, fname, max_runs=30000):
+    """Tree_Set / Tree_Rem from a loop-head-generic start: `m->root` is an arbitrary node of a valid tree (or NULL)"""
+    fn = P.fn(fname)
+    t0 = time.time()
+    res = {'runs': 0, 'returns': 0, 'loopbacks': 0, 'raises': 0, 'violations': [], 'unsupported': [], 'infeasible': 0,
+           'max_choices': 0, 'max_nodes': 0}
+    for var in ('empty', B, R):
+        stack = [[]]
+        while stack:
+            choices = stack.pop()
+            res['runs'] += 1
+            if res['runs'] > max_runs or time.time() - t0 > 120:
+                res['unsupported'].append('more than %d abstract runs or 120 s' % max_runs)
+                return res
+            st = State(choices)
+            if var == 'empty':
+                st.root = 0
+                x0 = None
+            else:
+                x0 = generic_node(st, var)
+                st.root = ('maybe', x0)
+            it = Interp(P, st, fn)
+            hk = OpHooks(it, st)
+            outcome = [None]
+
+            def on_head(interp, fr, st=st, x0=x0):
+                # closes when the tree is untouched-valid and the walk stands on a node of it
+                nodev = [v for v in list(fr['locals'].values()) + list(fr['params'].values()) if isinstance(v, tuple) and v[0] == 'n']
+                ok = bool(nodev) and not hk.fixed and not st.freed
+                # progress: the walk now stands on a child of a node it stood on at the previous visit of the loop head
+                prev = getattr(interp, 'prev_nodev', None) or ([N_(x0)] if x0 is not None else [])
+                ok = ok and any(v[1] in st.nodes and st.nodes[v[1]]['P'] in prev for v in nodev)
+                interp.prev_nodev = nodev
+                if ok:
+                    try:
+                        validate_all(st)
+                    except Violation:
+                        ok = False
+                if not ok and interp.head_visits - 1 > MAX_UNROLL:
+                    raise Violation('the walk neither comes back to its loop head standing on a node of an unchanged valid tree nor ends '
+                                    'within %d further iterations' % MAX_UNROLL)
+                return ok
+            it.on_head = on_head
+            try:
+                try:
+                    it.call(fn, [('m',), ('opqv',), ('opqv',)][:len(fn['params'])], 0, top=True)
+                    outcome[0] = 'return'
+                except LoopBack:
+                    outcome[0] = 'loop'
+                except Raised as r:
+                    outcome[0] = 'raise'
+                if outcome[0] == 'loop':
+                    res['loopbacks'] += 1
+                elif outcome[0] == 'raise':
+                    res['raises'] += 1
+                    if st.writes or st.freed:
+                        raise Violation('raises after the tree was changed')
+                    validate_all(st)
+                else:
+                    res['returns'] += 1
+                    if hk.fixed and hk.fixed[0] == 'Tree_Set_Fix':
+                        if st.writes != hk.fixed[1]:
+                            raise Violation('the tree is changed again after the insertion was rebalanced')
+                    else:
+                        live = [i for i in st.nodes if i not in st.freed]
+                        if not live:
+                            if st.root != 0:
+                                raise Violation('the last node was released but the root pointer still holds %r' % (st.root,))
+                        else:
+                            validate_all(st, gone=st.freed, at_return=True)
+            except NeedChoice as c:
+                for i in range(c.n):
+                    stack.append(choices + [i])
+                continue
+            except Infeasible:
+                res['infeasible'] += 1
+                continue
+            except Violation as v:
+                res['violations'].append({
+                    'pre': 'empty tree' if var == 'empty' else 'the walk stands on a %s node X of a valid tree' % ('red' if var == R else 'black'),
+                    'focus': ['%s: %s' % (w, c) for (w, c) in st.log],
+                    'lines': compress(it.lines), 'what': v.what, 'line': v.line, 'exit': outcome[0] or 'during the step',
+                    'h': ('h == %d' % st.h_eq) if st.h_eq is not None else ('h >= %d' % st.h_lo)})
+                continue
+            except Unsupported as u:
+                res['unsupported'].append('%s (after lines %s)' % (u, compress(it.lines)[-6:]))
+                continue
+            res['max_choices'] = max(res['max_choices'], len(st.log))
+            res['max_nodes'] = max(res['max_nodes'], len(st.nodes))
+    return res
+
+
+def explore_maximum(P, fname='Tree_Maximum'):
+    """contract used for the in-order predecessor: from any node, the result is reached through right links only, has no
+    right child, and nothing is written"""
+    fn = P.fn(fname)
+    res = {'runs': 0, 'returns': 0, 'loopbacks': 0, 'violations': [], 'unsupported': []}
+    for col in (B, R):
+        stack = [[]]
+        while stack:
+            choices = stack.pop()
+            res['runs'] += 1
+            st = State(choices)
+            x0 = generic_node(st, col)
+            it = Interp(P, st, fn)
+
+            def on_head(interp, fr, st=st, x0=x0):
+                v = fr['params'].get(1)
+                ok = isinstance(v, tuple) and v[0] == 'n' and not st.writes
+                prev = getattr(interp, 'prev_v', N_(x0))
+                ok = ok and v != prev and st.nodes[v[1]]['P'] == prev and st.nodes[prev[1]]['R'] == v
+                interp.prev_v = v
+                if not ok and interp.head_visits - 1 > MAX_UNROLL:
+                    raise Violation('the search neither steps to the right child nor ends within %d further iterations' % MAX_UNROLL)
+                return ok
+            it.on_head = on_head
+            try:
+                try:
+                    v = it.call(fn, [('m',), N_(x0)], 0, top=True)
+                except LoopBack:
+                    res['loopbacks'] += 1
+                    continue
+                res['returns'] += 1
+                if st.writes:
+                    raise Violation('the search for the maximum writes to the tree')
+                if not (isinstance(v, tuple) and v[0] == 'n'):
+                    raise Violation('returns %r' % (v,))
+                if st.nodes[v[1]]['R'] != 0:
+                    raise Violation('the node returned still has a right child (it is not the maximum of the subtree)')
+                cur = x0
+                while cur != v[1]:
+                    nxt = st.nodes[cur]['R']
+                    if not (isinstance(nxt, tuple) and nxt[0] == 'n'):
+                        raise Violation('the node returned is not on the right spine of the argument')
+                    cur = nxt[1]
+            except NeedChoice as c:
+                for i in range(c.n):
+                    stack.append(choices + [i])
+            except Infeasible:
+                pass
+            except Violation as v:
+                res['violations'].append({'pre': 'any node', 'focus': ['%s: %s' % (w, c) for (w, c) in st.log], 'lines': compress(it.lines),
+                                          'what': v.what, 'line': v.line, 'exit': 'return', 'h': ''})
+            except (Unsupported, Raised) as u:
+                res['unsupported'].append(str(u))
+    return res
